@@ -37,6 +37,9 @@ let () = iter_lines (fun line ->
   | ["packhdr"; thr; id; n; zn] ->
       let (h, c) = pack_hdr (z_of_dec thr) (z_of_dec id) (n_of_dec n) (n_of_dec zn) in
       Printf.printf "packhdr %s %s %s %s %s %s\n" thr id n zn (hex_of_bytes h) (if c then "z" else "p")
+  | ["own"; thr; id; n] ->
+      Printf.printf "own %s %s %s %s\n" thr id n
+        (if own_accepts (z_of_dec thr) (z_of_dec id) (n_of_dec n) then "ok" else "err")
   | "unpackn" :: thr :: count :: oldcap :: input :: m :: toks ->
       let inp = bytes_of_hex input in
       let es = entries inp (int_of_string m) toks in
